@@ -737,3 +737,18 @@ for _p in ('C09', 'C17'):
     PROPS[_p]['explanation'] = PROPS[_p]['explanation'] + _SKW_TEXT
     if 'websocket client\'s methods are additionally tied by translation' not in PROPS[_p]['technique']:
         PROPS[_p]['technique'] = PROPS[_p]['technique'] + '; the websocket client\'s methods are additionally tied by translation (bodies regenerated from the Go source on every run, proved equal to the model\'s step)'
+
+# ---- the small hand-written functions of transport.go (translator/transport.go -> Gen/Transport.lean, Sk/Transport.lean, Tie/Transport.lean)
+_SKT_TEXT = (" Regenerated tie for transport.go's small functions: EventTime.MarshalBinaryTo / UnmarshalBinary and EntryList.UnmarshalPacked / MarshalPacked are "
+             "re-read on every run, each statement recognised by its exact source text (anything else `.unknown`), and T_is_model (Tie/Transport.lean) prove "
+             "that evaluating the regenerated statements gives encodeET / decodeET / unmarshalPacked / marshalPacked.")
+for _p, _ths in (('C19', ['FV.Tie.EventTime_MarshalBinaryTo_is_model', 'FV.Tie.EventTime_UnmarshalBinary_is_model']),
+                 ('C03', ['FV.Tie.EntryList_UnmarshalPacked_is_model', 'FV.Tie.EntryList_MarshalPacked_is_model', 'FV.Tie.whileEntries_is_model']),
+                 ('C10', ['FV.Tie.EntryList_UnmarshalPacked_is_model', 'FV.Tie.EventTime_UnmarshalBinary_is_model']),
+                 ('C13', ['FV.Tie.EntryList_UnmarshalPacked_is_model'])):
+    PROPS[_p]['translator'] = True
+    PROPS[_p]['lean_modules'] = PROPS[_p]['lean_modules'] + ['FluentVerif.Tie.Transport']
+    PROPS[_p]['theorems'] = PROPS[_p]['theorems'] + _ths
+    PROPS[_p]['explanation'] = PROPS[_p]['explanation'] + _SKT_TEXT
+    if 'by translation' not in PROPS[_p]['technique']:
+        PROPS[_p]['technique'] = PROPS[_p]['technique'] + '; the functions are additionally tied by translation (statements regenerated from the Go source on every run, proved to evaluate to the model)'
